@@ -193,7 +193,7 @@ class History:
         # make sure a depth >= 2 content exists
         contents.append(S(f"{P}Picky", {"v": rng.randrange(3)}))
         contents.append(S(f"{P}Un", {}, {"child": S(f"{P}Bin", {}, {"left": S(f"{P}Leaf", {"v": 1}), "right": S(f"{P}List", {}, {"items": (S(f"{P}Leaf", {"v": 2}),)})})}))
-        origs = [("no",), ("code", 0, 1, 3), ("gen", 1)]
+        origs = [("no",), ("code", 0, 1, 3), ("gen", 1), ("code", 9, 1, 3), ("code", 10, 1, 3)]  # 9 and 10: one uri, two different sources (a Source subclass with its own fqn)
         kinds = []
         self.contents, self.origs = contents, origs
         for step in range(nops):
